@@ -28,7 +28,7 @@ package corebgp
 // ---- FSM life cycle as seen by the peer manager ----
 
 //@ func newFSM returns (f)
-//@   ensures [fresh] f != nil && fresh(f) && f.peer == peer && f.conn == conn && f.closeCh != nil && f.doneCh != nil && f.idleHoldTimer != nil && f.remoteID == 0
+//@   ensures [fresh] f != nil && fresh(f) && f.peer == peer && f.index == index && f.conn == conn && f.closeCh != nil && f.doneCh != nil && f.idleHoldTimer != nil && f.remoteID == 0
 //@   ensures [not_started] !fsmRunning(f) && !chanClosed(f.closeCh) && !chanClosed(f.doneCh) && fresh(f.closeCh) && !onceDone(f.closeOnce)
 
 //@ func fsm.start
